@@ -7,7 +7,7 @@ Three correspondence streams:
                 leaf writes, WHOLE-VALUE writes of a container (copy_value_from / move_value_from of a dense, sparse,
                 all-unset or nested-present-but-empty bundle / list value), invalidation of a leaf / a child / a whole
                 container, dumps of every position through the output view and every input view, in the write cycle and
-                in later quiet cycles.
+                in later quiet cycles; the value surface of the containers (which bundle fields carry a value).
   track-bind    two REAL TSOutput objects of TS<Int> / TSS<Int> / TSD<Int,TS<Int>> and 1-3 REAL TSInput objects that are
                 bound, SAMPLED-bound (bind_output_sampled: what nested-graph boundaries and REF retargets use), re-bound
                 and unbound in ANY cycle, driven by hgv_trackbind: set / dict mutations, dumps of valid / modified / lmt /
@@ -24,7 +24,7 @@ import engine_plugin as ep
 from vlib import Case, Stream, BUILD, VERIF, model_cmd
 
 ID = "C04"
-LEAN_MODULES = ['HgVerif.Props.C04', 'HgVerif.Props.C04Bind', 'HgVerif.Props.C04KeySet', 'HgVerif.Model.Engine',
+LEAN_MODULES = ['HgVerif.Props.C04', 'HgVerif.Props.C04Whole', 'HgVerif.Props.C04Bind', 'HgVerif.Props.C04KeySet', 'HgVerif.Model.Engine',
                 'HgVerif.Model.Extracted']
 _P = 'HgVerif.Tracking.'
 THEOREMS = [_P + n for n in [
@@ -40,6 +40,12 @@ THEOREMS = [_P + n for n in [
     # the consumer side (link record of a bound TSInput)
     'linkBind_inv', 'link_step_inv', 'link_inv_run', 'consumer_eq_producer_below_root', 'consumer_eq_producer_valid_root',
     'consumer_differs_after_root_invalidate',
+    # whole-value writes of fixed-shape containers (fixed_copy_value_from / fixed_move_value_from as coded)
+    'mem_presLeaves_iff', 'copyF_spec', 'whole_inv', 'whole_ok_pointwise', 'whole_write_modified_iff_present_leaf_below',
+    'whole_write_all_unset_is_noop', 'whole_write_no_present_leaf_is_noop', 'run_writes_spec', 'whole_write_eq_leaf_writes',
+    'whole_write_notifies_once', 'whole_write_error_iff_duplicate', 'whole_frame', 'whole_leaf_eq_write',
+    'applyW_spec', 'runW_inv', 'runW_spec_refines', 'link_step_inv_whole', 'link_inv_runW',
+    'first_for_parent_ticks_unwritten_bundle', 'first_for_parent_ticks_unwritten_bundle_general',
 ]] + ['HgVerif.TrackBind.' + n for n in [
     # consumers bound / sampled-bound / re-bound / unbound in any cycle (the link's structural transition)
     'step_inv', 'run_inv', 'consumer_modified_eq_producer_outside_bind_cycles', 'lastBind_ne_of_no_bind_at',
@@ -64,7 +70,26 @@ RULE = ('engine-probe: flat graphs with 1-3 probe nodes: a probe wakes itself ev
         'track: histories of leaf writes and invalidations (leaf / child / whole container) with explicit non-decreasing '
         'evaluation times over real TSOutput objects of TS<Int>, TSB{a,b}, TSL<TS,2>, TSB{a,b:TSB{c,d}}, TSL<TSB{a,b},2> with '
         '1-2 bound TSInputs (the second possibly bound in a later cycle); every dump lists valid/modified/lmt(/value) of '
-        'EVERY position through the output view and through every bound input view.  Reference, decided from the op list '
+        'EVERY position through the output view and through every bound input view.  '
+        'Whole-value writes (ws = copy_value_from, wm = move_value_from of a bundle / list Value built with BundleBuilder-style '
+        'field assembly / ListBuilder, at the root or at an inner container; shapes also TSL<TS,3>, 3-level TSB, '
+        'TSL<TSB{a,b:TSL<TS,2>},2>, TSB{a:TSL<TS,3>,b,c:TSB{d}}): dense, sparse, ALL-UNSET ((_,_)), inner container present but '
+        'empty ((_,(_,_))), one single leaf, mixes; in the cycle of direct leaf writes, after invalidations, on never '
+        'written outputs, with late binds, and exhaustively (11-letter alphabet on the 2-level TSB, <= 2 ops quick / 3 '
+        'thorough).  For the reference a whole-value write IS the leaf writes of its present leaves - nothing else may tick, '
+        'become valid or be notified; an all-unset or nested-but-empty value writes nothing.  One explicit error is part of '
+        'the reference: a present nested container that already ticked in this cycle and gets a newly written leaf makes the '
+        'write fail (err:logic, "duplicate modification") after the leaves reached before that point (call order) were '
+        'stored and stamped; an error in any other situation is a violation, a missing error is left to the correspondence.  '
+        'A fixed-size list NESTED in the written value is dense (the native fixed-list value has no per-element validity; '
+        'only the list handed to the write itself can carry unset elements).  '
+        'val lines list the VALUE surface of every container (position.value() through the output view and every bound input '
+        'view, rendered like a value spec): a bundle value carries exactly the fields at / below which something has ever been '
+        'stored - by a leaf write or as a present leaf of a whole-value write, also one that failed later - and keeps them '
+        '(code: mark_tsb_value_field_valid on the first stamp, never unset, also not by invalidate: valid = 0 is what says '
+        '"do not read"); a stored leaf reads the value stored last; the elements of a list value are always there (a never '
+        'stored Int element reads the type default, not judged); every bound input reads the producer\'s text.  '
+        'Reference, decided from the op list '
         'alone (last write per leaf, last effective invalidation per position): a position is WIPED by the last effective '
         'invalidation of itself or of a container holding it; it is VALID iff some leaf at or below it was written after '
         'that wipe - i.e. a container is valid from the first write to any descendant until an explicit invalidation of '
@@ -127,7 +152,9 @@ ASSUMPTIONS = ["cycle times non-decreasing; a write's time is the current cycle 
                'bound once with the plain bind']
 TECHNIQUE = ('Lean 4 proof (invariant lmt child <= lmt parent <= now through arbitrary write/invalidate histories on arbitrary '
              'finite trees; the recursive invalidate of base_view.cpp refined to "subtree := MIN_DT, proper ancestors := t"; link '
-             'record invariant for bound inputs) + differential correspondence (probe nodes in graphs; standalone '
+             'record invariant for bound inputs; the recursive whole-value write of ts_data_fixed_structured_ops.cpp with its '
+             'loop invariant (frame, upward closure of the new stamps, notification counts, duplicate-modification error) '
+             'refined to "present leaves and their ancestors := t") + differential correspondence (probe nodes in graphs; standalone '
              'TSOutput/TSInput objects of structured schemas) + independent reference monitors; for consumers bound in any '
              'cycle: invariant of the link machine (bind_impl, structural transition with its lazily expiring predicate) through '
              'arbitrary mutation / bind / sampled bind / re-bind / unbind histories')
@@ -138,7 +165,18 @@ LEVEL_TEXT = ('Kernel-checked for every tree of time-series positions and every 
               'backwards except by invalidation; invalidate(p) - modelled exactly as coded: children first, then notify, then '
               'reset - makes p and ALL its descendants invalid and unmodified, every proper ancestor modified at that time, '
               'leaves everything else untouched, keeps lmt child <= lmt parent <= now, and is the identity on an invalid '
-              'position. A bound input reads the producer\'s records everywhere below the target root, and at the root '
+              'position. A whole-value write of a fixed-shape container (copy_value_from / move_value_from of a possibly '
+              'sparse bundle / list value, modelled as coded: recursive over the present children, a leaf answers '
+              'first-for-time, a container "some child was newly modified", stamping by the enclosing loop, mark_modified only '
+              'on a true answer) makes exactly the present leaves and their ancestors modified / valid and touches nothing '
+              'else; a value all of whose fields are unset - or whose present containers hold no leaf - changes no record and '
+              'notifies no observer; whenever no error is raised it equals the sequence of the leaf writes of its present '
+              'leaves; every observer is notified at most once, exactly where a record changes; the duplicate-modification '
+              'logic_error is raised exactly when a present nested container already carrying the cycle time gets a fresh '
+              'leaf, and even then lmt child <= lmt parent <= now is kept; all of it for every tree, every sparse value and every '
+              'history mixing leaf writes, whole-value writes and invalidations; the seeded "first for parent" answer is '
+              'proved to stamp a never-written bundle. '
+              'A bound input reads the producer\'s records everywhere below the target root, and at the root '
               'whenever the root is valid; after an invalidation of the whole target the input root keeps the invalidation '
               'time (proved as consumer_differs_after_root_invalidate; finding C04-consumer). On the real code, probe nodes '
               'and the hgv_track driver (real TSOutput + bound TSInputs of TS/TSB/TSL nestings) must agree with the model '
@@ -154,6 +192,7 @@ LEVEL_TEXT = ('Kernel-checked for every tree of time-series positions and every 
               'from the dictionary\'s first write on, and it is stamped exactly when the dictionary is written and the membership '
               'changes or the key set was never valid (code = tidy rule, keyset_lmt_eq_spec); a TSS input bound to it reads that '
               'record.')
+# (whole-value writes: Props/C04Whole.lean, Model/TrackingWhole.lean)
 LEVEL_NOTE = ('Trusted: Lean kernel; tracking model tied to types.cpp/base_view.cpp/ts_input base_view.cpp by the two '
               'correspondence streams. The link record of a bound input is modelled from target_link.cpp (notify -> '
               'record_target_modified); the sampled bind and the structural transition from target_link.cpp bind_impl / '
@@ -163,7 +202,11 @@ LEVEL_NOTE = ('Trusted: Lean kernel; tracking model tied to types.cpp/base_view.
               'reads modified and not valid; TSD children read modified with an older lmt in the sampled cycle; '
               'the pre-8d7f72a rule for an erase of an absent key is kept as a named counter-witness '
               '(prefix_blind_erase_leaves_keyset_invalid, prefix_not_keysetValid). TSW children '
-              'are not in the track streams.')
+              'are not in the track streams. Whole-value writes: the theorems assume duplicate-free children lists '
+              '(ofParents_kids_nodup: true of every tree the driver builds) and a childless position = leaf; which leaf VALUES a '
+              'failing write stored is modelled (WOut.V) and compared by the correspondence, not stated as a theorem; the field '
+              'validity bits of the bundle VALUE (mark_tsb_value_field_valid, val lines) are computed by the model driver as '
+              '"the position has carried a time at least once" - correspondence and monitor only, no theorem.')
 
 SCHEMAS = ['TS<Int>', 'TSB{a:TS<Int>,b:TS<Int>}', 'TSL<TS<Int>,2>',
            'TSB{a:TS<Int>,b:TSB{c:TS<Int>,d:TS<Int>}}', 'TSL<TSB{a:TS<Int>,b:TS<Int>},2>']
@@ -337,6 +380,8 @@ def gen_track(rng, idx, maxops):
             lines.append('dump %d' % t)
         t += rng.choice([1, 1, 1, 2, 3])
     lines.append('dump %d' % t)
+    if len(pos) > 1 and rng.random() < 0.4:
+        lines.append('val %d' % t)                         # which bundle fields carry a value after this history
     lines.append('dump %d' % (t + 4))
     return Case(lines, {'profile': profile})
 
@@ -556,16 +601,21 @@ def gen_whole(rng, idx, maxops):
             n_ops += 1
             if rng.random() < 0.2:
                 lines.append('dump %d' % t)
+            if rng.random() < 0.15:
+                lines.append('val %d' % t)                # the value surface of the containers, mid-cycle
         if unbound and rng.random() < 0.35:
             i = unbound.pop(0)
             lines.append('bind %d %d' % (i, t))            # an input that appears in a later cycle
         if rng.random() < 0.95:
             lines.append('dump %d' % t)
+        if rng.random() < 0.5:
+            lines.append('val %d' % t)
         for _ in range(rng.choice([0, 0, 1, 1, 2])):
             t += rng.choice([1, 1, 2, 5])
             lines.append('dump %d' % t)
         t += rng.choice([1, 1, 1, 2, 3])
     lines.append('dump %d' % t)
+    lines.append('val %d' % t)
     lines.append('dump %d' % (t + 4))
     return Case(lines, {'profile': 'ws:' + profile})
 
@@ -578,7 +628,7 @@ def gen_whole_malformed(rng, idx):
            'ws . 2 (__)', 'ws . 2 (_,(_))', 'wz . 2 (_,_)', 'ws . 2 (1234567890123456,_)']
     rng.shuffle(bad)
     lines += bad[:5]
-    lines += ['ws . 0 (_,_)', 'ws 1 2 (_,-3)', 'dump 2', 'dump 3']
+    lines += ['ws . 0 (_,_)', 'ws 1 2 (_,-3)', 'dump 2', 'val 2', 'val', 'val x', 'dump 3']
     return Case(lines, {'profile': 'ws:malformed'})
 
 
@@ -604,6 +654,7 @@ def exhaustive_whole(max_ops, start):
                     t += 1
                 lines.append(a % t)
                 lines.append('dump %d' % t)
+                lines.append('val %d' % t)
             lines.append('dump %d' % (t + 1))
             cases.append(Case(lines, {'profile': 'ws:exhaustive'}))
             idx += 1
@@ -737,6 +788,67 @@ def _parse_notes(text):
     return out
 
 
+def _parse_patterns(text):
+    """' .=(5,(_,6)) 1=(_,6)' -> {path: pattern text}"""
+    out = {}
+    for w in text.split():
+        m = re.match(r'^([0-9.]+)=([-0-9_(),]+)$', w)
+        if not m or m.group(1) in out:
+            raise ValueError('unreadable container value %r' % w)
+        out[m.group(1)] = m.group(2)
+    return out
+
+
+def _pattern_mismatch(pos, x, text, stored, top):
+    """None when `text` is what the value of container x may read given the leaf values stored so far, else the reason"""
+    i = [0]
+
+    def rec(y, must_be_present):
+        """returns a reason or None"""
+        if text[i[0]:i[0] + 1] == '_':
+            i[0] += 1
+            if must_be_present:
+                return 'position %s has no value although %s' % (
+                    pos[y].path, 'something was stored at / below it' if must_be_present == 'stored' else
+                    'it is the value of the position itself' if y == x else 'a list value is dense')
+            return None
+        if pos[y].leaf:
+            m = re.match(r'-?\d+', text[i[0]:])
+            if not m:
+                return 'unreadable at %d' % i[0]
+            i[0] += len(m.group(0))
+            if y in stored:
+                if int(m.group(0)) != stored[y]:
+                    return 'leaf %s reads %s, the value stored last is %d' % (pos[y].path, m.group(0), stored[y])
+            elif must_be_present != 'dense':
+                return 'leaf %s carries the value %s although nothing was ever stored there' % (pos[y].path, m.group(0))
+            return None                     # a never stored element of a dense list: whatever the default is
+        if text[i[0]:i[0] + 1] != '(':
+            return 'unreadable at %d' % i[0]
+        i[0] += 1
+        for n, k in enumerate(pos[y].kids):
+            if n > 0:
+                if text[i[0]:i[0] + 1] != ',':
+                    return 'unreadable at %d' % i[0]
+                i[0] += 1
+            below = any(l in stored for l in _under(pos, k))
+            need = 'dense' if pos[y].list else ('stored' if below else None)
+            if need is None and text[i[0]:i[0] + 1] != '_':
+                return 'field %s carries a value although nothing was ever stored at / below it' % pos[k].path
+            why = rec(k, need)
+            if why:
+                return why
+        if text[i[0]:i[0] + 1] != ')':
+            return 'unreadable at %d' % i[0]
+        i[0] += 1
+        return None
+
+    why = rec(x, 'dense')                   # the position's own value() is always there
+    if why is None and i[0] != len(text):
+        return 'trailing text'
+    return why
+
+
 def _mon_track(case, out):
     res = _Res()
     if len(out) != len(case.lines):
@@ -750,6 +862,7 @@ def _mon_track(case, out):
     consumer_hits = 0
     effective_seen_at = None      # time of an effective invalidation not yet followed by a later dump
     pending_empty = None          # time of a whole-value write that wrote no leaf, not yet followed by a dump
+    stored = {}                   # leaf -> the value stored last (never forgotten: invalidation does not erase a value)
 
     def bad(cls, msg):
         if len(res.bad) < 6:
@@ -787,6 +900,7 @@ def _mon_track(case, out):
                 continue
             pos = new
             wr, inval, seq = {}, {}, 0
+            stored = {}
             bound = [False] * int(w[2])
             if o != 'ok n=%d' % len(pos):
                 bad('trace', 'schema answered %r, expected ok n=%d' % (o, len(pos)))
@@ -842,6 +956,7 @@ def _mon_track(case, out):
             last_t = t
             seq += 1
             wr[p] = (seq, t, int(w[3]))
+            stored[p] = int(w[3])
             continue
         if op in ('ws', 'wm') and len(w) == 4 and w[1] in paths and not pos[paths[w[1]]].leaf and wellformed_t(w[2]) \
                 and parse_spec(pos, paths[w[1]], w[3]) is not None:
@@ -912,6 +1027,7 @@ def _mon_track(case, out):
             for l in written:
                 seq += 1
                 wr[l] = (seq, t, vals[l])
+                stored[l] = vals[l]
             if not written:
                 pending_empty = t
             continue
@@ -1061,6 +1177,43 @@ def _mon_track(case, out):
                         continue
                     bad('io', 'a bound input view differs from the output view: input %d position %s at t=%d reads %s, the producer reads %s' % (i, pos[p].path, t, c, a))
             continue
+        if op == 'val' and len(w) == 2 and wellformed_t(w[1]):
+            # the VALUE surface of the containers: a bundle value carries exactly the fields at / below which something
+            # has ever been stored (a field is never unset again, also not by an invalidation: valid = 0 says "do not
+            # read"); a stored leaf reads the value stored last; consumers read what the producer reads
+            parts = [x.strip() for x in o.split('|')]
+            if len(parts) != 1 + len(bound) or not parts[0].startswith('o:'):
+                bad('trace', 'val answered %r' % o[:80])
+                continue
+            conts_ = [x for x in range(len(pos)) if not pos[x].leaf]
+            try:
+                got = _parse_patterns(parts[0][2:])
+            except ValueError as e:
+                bad('trace', str(e))
+                continue
+            if sorted(got) != sorted(pos[x].path for x in conts_):
+                bad('trace', 'val lists positions %s' % sorted(got))
+                continue
+            res.feats.add('val:observed')
+            for x in conts_:
+                why = _pattern_mismatch(pos, x, got[pos[x].path], stored, True)
+                if why:
+                    bad('value', 'the value of container %s at t=%s reads %s: %s (stored so far: %s)'
+                        % (pos[x].path, w[1], got[pos[x].path], why, {pos[l].path: v for l, v in sorted(stored.items())}))
+                if stored and any(pos[l].leaf and l not in stored for l in _under(pos, x)):
+                    res.feats.add('val:partly-stored-container')
+            for i, b in enumerate(bound):
+                part = parts[1 + i]
+                body = part[len('i%d:' % i):].strip() if part.startswith('i%d:' % i) else None
+                if body is None:
+                    bad('trace', 'input %d part unreadable: %r' % (i, part[:40]))
+                elif not b:
+                    if body != 'unbound':
+                        bad('trace', 'unbound input %d listed as %r' % (i, body[:40]))
+                elif body != parts[0][2:].strip():
+                    bad('io', 'a bound input reads container values differently from the producer at t=%s: input %d reads %s, '
+                              'the producer %s' % (w[1], i, body, parts[0][2:].strip()))
+            continue
         # anything else is malformed: both drivers must refuse it
         res.feats.add('malformed-line')
         if o != 'bad-op':
@@ -1143,7 +1296,7 @@ def valid_case(stream, case, impl_out, model_out):
             return False
     last = 0
     for w in body[1:]:
-        if w[0] in ('w', 'ws', 'wm', 'inv', 'dump', 'bind'):
+        if w[0] in ('w', 'ws', 'wm', 'inv', 'dump', 'val', 'bind'):
             try:
                 t = int(w[2] if w[0] in ('w', 'ws', 'wm', 'inv', 'bind') else w[1])
             except (ValueError, IndexError):
